@@ -19,7 +19,7 @@ using COW = gmlc::libguarded::cow_guarded<P2>;
 #define WRITE_MUTEX_OFFSET sizeof(gmlc::libguarded::lr_guarded<std::shared_ptr<const P2>>)
 static_assert(sizeof(COW) == WRITE_MUTEX_OFFSET + sizeof(std::mutex), "layout");
 #ifndef WMODE
-#define WMODE 0   // 0 commit, 1 cancel, 2 move the handle then commit, 3 symbolic
+#define WMODE 0   // 0 commit, 1 cancel, 2 move the handle then commit, 3 symbolic (0..2), 4 move, cancel the moved-from handle, commit
 #endif
 #ifndef NSNAP
 #define NSNAP 2
@@ -58,6 +58,17 @@ VP_INLINE void writer(int mode)
                 vp_point();
             } else if (mode == 2) {
                 COW::handle h2(std::move(h));          // duty to commit moves with the handle
+                vp_gadd(G_COMMITS, 1);
+                vp_win_exit(0, 1);
+            } else if (mode == 4) {
+                COW::handle h2(std::move(h));          // ... and so does the writer lock: the moved-from handle owns nothing,
+                h.cancel();                            // cancelling it is a no-op
+                {
+                    const char* wm_ = reinterpret_cast<const char*>(g_c) + WRITE_MUTEX_OFFSET;
+                    vp_assert(vp_mutex_owner(wm_) == vp_tid() + 1, 412);   // writers stay excluded until h2 is released
+                }
+                vp_point();
+                vp_assert(h2->a == base + 1 && h2->b == base + 1, 413);
                 vp_gadd(G_COMMITS, 1);
                 vp_win_exit(0, 1);
             } else {
